@@ -28,7 +28,7 @@ def run(replay=None):
     thorough = tier() == 'thorough'
     rnd = rng('c13')
     rec = Recorder(rep, rnd, 48 if thorough else 24)
-    texts = family_texts(FAMS, rep, rnd, cap=None if thorough else 1200)
+    texts = family_texts(list(FAMS) + [('rand', 4000, 4) if thorough else ('rand', 600, 3)], rep, rnd, cap=None if thorough else 1200)
     texts += [('vacuous', 'True'), ('vacuous', 'False'), ('vacuous', '( True )')]
     pool = []
     for t in ('True', 'False', 'q', 'not p', '@A . n > y'):
